@@ -355,9 +355,12 @@ impl<K: Elem, V: Elem> MapDrv<K, V> {
         let a = self.map.contains_key(&k);
         // termination as a logical-step bound: one lookup compares at most once per bucket it can reach
         let calls = crate::fuse::count(crate::fuse::Class::Eq) - e0;
-        let bound = 2 * (self.facts.buckets.max(1) as u64 + 16);
-        if calls > bound && self.validate_every == 1 {
-            crate::viol!("contains_key({}): one lookup made {} equality calls in a table of {} buckets", id, calls, self.facts.buckets);
+        if calls > 32 {
+            // (the bucket count is read from the table itself, not from the last validation)
+            let buckets = self.map.verif_dump().bucket_mask as u64 + 1;
+            if calls > 2 * (buckets + 16) {
+                crate::viol!("contains_key({}): one lookup made {} equality calls in a table of {} buckets", id, calls, buckets);
+            }
         }
         ctx.max("max_eq_calls_one_lookup", calls);
         let b = self.map.contains_key(&KeyRef(id));
